@@ -297,8 +297,19 @@ func namerGen(c *Ctx) {
 				ks = append(ks, k)
 				vs = append(vs, r.Pick([]string{"endpoints", "Oxen", "x", "", "dataSets"}))
 			}
-			c.Case([]string{Line("nm", "plural", HexList(ks), HexList(vs), r.Pick([]string{"ic", "il", "lower"}), Hex(r.Pick(nmWords)))},
-				Meta{Nontrivial: true, Features: []string{"op:plural"}})
+			word := r.Pick(nmWords)
+			feats := []string{"op:plural"}
+			if r.Chance(2, 5) {
+				// a random stem (letters of both cases, digits, underscores) in front of an ending one of the rules looks at
+				stem := ""
+				for k, n := 0, r.Intn(4); k < n; k++ {
+					stem += string("abeioukrstyzCAYXQ019_"[r.Intn(21)])
+				}
+				word = stem + r.Pick([]string{"y", "s", "x", "z", "h", "ch", "sh", "e", "fe", "f", "ay", "2y", "_y", "Ay", "Yy", "0h", "Sh", "Ch", "Fe", "_e"})
+				feats = append(feats, "plural:random-word")
+			}
+			c.Case([]string{Line("nm", "plural", HexList(ks), HexList(vs), r.Pick([]string{"ic", "il", "lower"}), Hex(word))},
+				Meta{Nontrivial: true, Features: feats})
 		case 2:
 			c.Case([]string{Line("nm", "private", Hex(r.Pick(nmWords)))}, Meta{Nontrivial: false, Features: []string{"op:private"}})
 		default:
